@@ -4,6 +4,7 @@ import (
 	"context"
 	"fmt"
 	"io"
+	"strings"
 	"time"
 
 	goat "github.com/avos-io/goat"
@@ -166,6 +167,88 @@ func c20WrappedError(r *Run) {
 		r.Count("chain.wrapped")
 		if status.Code(err) != codes.PermissionDenied {
 			r.Violate("chain.wrapped", "ops", "the error the interceptor chain returned wraps the handler's status, but the caller did not observe its code", in, fmt.Sprint(err), "PermissionDenied")
+		}
+	}
+}
+
+// c20RefusedRequest: a request the SERVER refuses before any handler runs (request metadata that does
+// not decode, under a lower-case and a mixed-case -bin key; unary and stream). Whatever the server's
+// stats handlers are shown for such a call must still be balanced and truthful: an RPC that has a
+// Begin has exactly one End, and that End carries an error because the peer was answered with a
+// non-OK status / a reset. (No events at all is fine: the call never became an RPC.)
+func c20RefusedRequest(r *Run) {
+	if !r.Want("stats") {
+		return
+	}
+	for nh := 1; nh <= 2; nh++ {
+		for _, method := range []string{mUnary, mBidi} {
+			for _, key := range []string{"k-bin", "K-Bin"} {
+				var recs []*Recorder
+				var sopts []goat.ServerOption
+				for i := 0; i < nh; i++ {
+					s := NewRecorder(fmt.Sprint("s", i))
+					recs = append(recs, s)
+					sopts = append(sopts, goat.StatsHandler(s))
+				}
+				in := map[string]any{"handlers": nh, "outcome": "refused: undecodable request metadata", "method": method, "key": key}
+				r.Progress("stats", in)
+				sc := NewScript(16)
+				impl := &Impl{}
+				srv := goat.NewServer("srv", sopts...)
+				srv.RegisterService(&echoDesc, impl)
+				ctx, cancel := context.WithCancel(context.Background())
+				served := make(chan error, 1)
+				go func() { served <- srv.Serve(ctx, sc) }()
+				req := &Rpc{Id: 7, Header: &goatorepo.RequestHeader{Method: method, Source: "c", Destination: "srv",
+					Headers: []*goatorepo.KeyValue{{Key: key, Value: "!!"}}}}
+				if method == mUnary {
+					req.Body = &goatorepo.Body{Data: []byte("p")}
+				}
+				sc.In <- req
+				refused := false
+				select {
+				case e := <-sc.Out:
+					refused = e.Id == 7 && (e.Reset_ != nil || (e.Status != nil && e.Status.Code != 0))
+				case <-time.After(hangTimeout):
+				}
+				// a well-formed call afterwards is the barrier: its End is the last thing the server does for it
+				sc.In <- &Rpc{Id: 9, Header: &goatorepo.RequestHeader{Method: mUnary, Source: "c", Destination: "srv"}, Body: &goatorepo.Body{Data: []byte("p")}}
+				select {
+				case <-sc.Out:
+				case <-time.After(hangTimeout):
+				}
+				time.Sleep(5 * time.Millisecond)
+				r.Eval(fmt.Sprintf("stats/%d/refused/%s/%s", nh, method, key), true)
+				r.Count("stats.refused")
+				if refused {
+					for _, rec := range recs {
+						for tag, evs := range rec.ByTag() {
+							// the barrier call is an ordinary unary call: told apart by its payload events
+							if len(evs) == 0 || rec.MethodOf(tag) != method || strings.Contains(kindsOf(evs), "InPayload") {
+								continue
+							}
+							ks := kindsOf(evs)
+							ne := 0
+							for _, e := range evs {
+								if e.Kind == "End" {
+									ne++
+									if !e.HasErr {
+										r.Violate("stats.refused.enderr", "ops", "server: End.Error must be nil exactly when the RPC succeeded (the request was refused with a non-OK answer)", in, ks, "End with an error, or no events")
+									}
+								}
+							}
+							if ne != 1 || evs[0].Kind != "Begin" {
+								r.Violate("stats.refused.once", "ops", "server: exactly one Begin (first) and one End per RPC", in, ks, nil)
+							}
+						}
+					}
+				}
+				srv.Stop()
+				cancel()
+				sc.FailRead(io.ErrClosedPipe)
+				within(hangTimeout, func() { <-served })
+				settleGoroutines(0)
+			}
 		}
 	}
 }
